@@ -245,7 +245,10 @@ void ed_read_bin(ed_t a, const uint8_t *bin, size_t len) {
 				RLC_THROW(ERR_NO_VALID);
 				break;
 		}
-		ed_upk(a, a);
+		if (!ed_upk(a, a)) {
+			RLC_THROW(ERR_NO_VALID);
+			return;
+		}
 	}
 
 	if (len == 2 * RLC_FP_BYTES + 1) {
